@@ -9,7 +9,7 @@ from vlib import treg
 from vlib.core import Case, Facet, Refused, Violation, guarded
 
 # thorough-tier budgets of every facet are multiplied by this factor (sized for ~5-8 min on 16 cores)
-THOROUGH_SCALE = 8
+THOROUGH_SCALE = 3
 LEVEL = "exploration"
 RULE = ("spec = dataset of n 1-8 samples whose payloads come from a recursive strategy of picklable values (ints, finite floats, "
         "str, bytes, None, tuples, lists, dicts, ndarrays, tensors) + optional post-cache transform + an operation sequence (<=30) "
